@@ -23,6 +23,22 @@ package postgresql
 //@   loop 0 invariant 0 <= endIndex && endIndex <= len(data)
 //@   ensures err == nil ==> p != nil && 1 <= len(p.name) && 1 <= len(p.query) && len(p.paramsNum) == 2
 //@   ensures layout: err == nil ==> sameslice(p.name, data[:len(p.name)]) && sameslice(p.query, data[len(p.name):len(p.name)+len(p.query)]) && sameslice(p.paramsNum, data[len(p.name)+len(p.query):len(p.name)+len(p.query)+2])
+//@   loop 0 invariant forall(k, 0, len(params), len(params[k]) == 4)
+//@   ensures params-are-oids: err == nil ==> forall(k, 0, len(p.params), len(p.params[k]) == 4)
+
+// Marshal writes exactly Length() bytes: name, query, parameter count, 4-byte parameter types (type invariant of
+// ParsePacket, established by NewParsePacket above). The message header is computed from Length(), the body from
+// Marshal(): if the two disagreed the rewritten Parse message would be malformed.
+//@ func (packet *ParsePacket) Marshal() (out []byte)
+//@   props C12 C14
+//@   safety
+//@   requires forall(k, 0, len(packet.params), len(packet.params[k]) == 4)
+//@   loop 0 invariant len(output) == len(packet.name) + len(packet.query) + len(packet.paramsNum) + 4 * $n
+//@   loop 0 invariant fresh(output)
+//@   loop 0 invariant forall(i, 0, len(packet.name), output[i] == packet.name[i])
+//@   ensures length-is-Length: len(out) == len(packet.name) + len(packet.query) + len(packet.paramsNum) + 4 * len(packet.params)
+//@   ensures name-first: forall(i, 0, len(packet.name), out[i] == packet.name[i])
+//@   modifies nothing
 
 //@ func (packet *ParsePacket) Length() (n int)
 //@   props C12 C14
@@ -35,7 +51,7 @@ package postgresql
 //@   safety
 //@   ensures len(packet.query) == len(newQuery) + 1 && packet.query[len(newQuery)] == 0
 //@   ensures forall(i, 0, len(newQuery), packet.query[i] == newQuery[i])
-//@   modifies packet
+//@   modifies packet.query
 
 //@ func GetParameterFormatByIndex(i int, params []uint16) (f base.BoundValueFormat, err error)
 //@   props C12 C14 C19
@@ -173,11 +189,16 @@ package postgresql
 //@   props C12 C14
 //@   safety
 //@   requires 4 <= len(packet.descriptionLengthBuf)
+//@   ensures header-matches-body: (packet.messageType[0] == 'Q' || (packet.messageType[0] == 'P' && called(NewParsePacket) && ret(NewParsePacket)[1] == nil)) ==> be32(packet.descriptionLengthBuf[0:4]) == uint32(buflen(packet.descriptionBuf) + 4)
+//@   ensures simple-query-body: packet.messageType[0] == 'Q' ==> buflen(packet.descriptionBuf) == len(newQuery) + 1 && bufbyte(packet.descriptionBuf, len(newQuery)) == 0 && forall(i, 0, len(newQuery), bufbyte(packet.descriptionBuf, i) == newQuery[i])
 
 //@ func (packet *PacketHandler) SetParsePacket(parsePacket *ParsePacket) (err error)
 //@   props C12 C14
 //@   safety
 //@   requires 4 <= len(packet.descriptionLengthBuf)
+//@   requires forall(k, 0, len(parsePacket.params), len(parsePacket.params[k]) == 4)
+//@   ensures header-matches-body: err == nil && be32(packet.descriptionLengthBuf[0:4]) == uint32(buflen(packet.descriptionBuf) + 4)
+//@   ensures body-is-the-packet: buflen(packet.descriptionBuf) == len(parsePacket.name) + len(parsePacket.query) + len(parsePacket.paramsNum) + 4 * len(parsePacket.params)
 
 //@ func (packet *PacketHandler) GetSimpleQuery() (q string, err error)
 //@   props C12 C14
